@@ -13,6 +13,8 @@ import (
 	_ "embed"
 	"fmt"
 	"hash/fnv"
+	"runtime"
+	"runtime/debug"
 	"strings"
 
 	"verif/internal/driver"
@@ -72,9 +74,16 @@ type monitor struct {
 	env *execEnv
 	py  *driver.Py
 	bad bool // python died: stop
+
+	sampleFamily string // the family this shard contributes evidence samples from (spread over shards)
+	nsampled     int
 }
 
 func run(c *driver.Ctx) {
+	// One child per core is already running: keep the Go runtime of this child from spreading its GC workers
+	// over all cores (16 children x 16 Ps thrash on futexes).  Purely a scheduling matter; verdicts do not depend on it.
+	runtime.GOMAXPROCS(2)
+	debug.SetGCPercent(400)
 	env, err := newExecEnv()
 	if err != nil {
 		c.Inconclusive("cannot compile helper functions: %v", err)
@@ -95,6 +104,15 @@ func run(c *driver.Ctx) {
 	p.rsplitHuge = probe.panic == ""
 
 	specs := buildSpecs(p)
+	var families []string
+	seenFam := map[string]bool{}
+	for i := range specs {
+		if !seenFam[specs[i].family] {
+			seenFam[specs[i].family] = true
+			families = append(families, specs[i].family)
+		}
+	}
+	m.sampleFamily = families[(c.Shard*7)%len(families)]
 	exhaustiveDone := true
 	for i := range specs {
 		sp := &specs[i]
@@ -118,6 +136,9 @@ func run(c *driver.Ctx) {
 }
 
 const maxBatch = 6000
+
+// altSep separates alternative acceptable results in a reference answer.
+const altSep = "\x00OR\x00"
 
 // process judges all groups of one case; large cases are sent to Python in several requests.
 func (m *monitor) process(sp *caseSpec, groups []group) bool {
@@ -143,7 +164,7 @@ func (m *monitor) process(sp *caseSpec, groups []group) bool {
 }
 
 func typeName(v val) string {
-	return map[byte]string{'S': "str", 'B': "bytes", 'L': "list", 'U': "tuple", 'R': "range", 'I': "int", 'N': "", 'T': "bool", 'D': "dict", 'F': "float", 'G': "int"}[v.k]
+	return map[byte]string{'S': "str", 'B': "bytes", 'L': "list", 'U': "tuple", 'R': "range", 'I': "int", 'N': "None", 'T': "bool", 'D': "dict", 'F': "float", 'G': "int"}[v.k]
 }
 
 func opName(it *item) string {
@@ -188,7 +209,10 @@ func (m *monitor) judge(sp *caseSpec, groups []group) bool {
 	sb.WriteString("]}")
 
 	// real code first (so that a crash is attributed to this case before Python is involved)
-	type res struct{ direct, source outcome; src string }
+	type res struct {
+		direct, source outcome
+		src            string
+	}
 	results := make([][]res, len(groups))
 	for gi, g := range groups {
 		results[gi] = make([]res, len(g.argsets))
@@ -236,6 +260,7 @@ func (m *monitor) judge(sp *caseSpec, groups []group) bool {
 			r := results[gi][ai]
 			w := want[ai]
 			c.Eval(1)
+			c.Count("evals:"+sp.family, 1)
 			if !covered {
 				covered = true
 				c.Cover("ops", opName(it))
@@ -258,7 +283,7 @@ func (m *monitor) judge(sp *caseSpec, groups []group) bool {
 			c.Count("compared_source_text", 1)
 			if r.direct.canon != r.source.canon {
 				c.Count("mismatches", 1)
-				c.Violation("C13 api-vs-source "+it.opGroup()+" "+keyClass(it),
+				c.Violation("C13 api-vs-source "+it.opGroup(),
 					fmt.Sprintf("%s: via Go API %s, via source text %s (reference %s)", r.src, show(r.direct), show(r.source), w),
 					map[string]any{"expr": r.src, "api": r.direct.canon, "api_err": r.direct.err, "source": r.source.canon, "source_err": r.source.err, "reference": w})
 				continue
@@ -281,9 +306,26 @@ func (m *monitor) judge(sp *caseSpec, groups []group) bool {
 			// 4. Python
 			c.Count("compared_python", 1)
 			got := r.direct.canon
+			if strings.Contains(w, altSep) {
+				// the specification admits more than one reading here (ref.py says which and why)
+				c.Count("ambiguous_spec_cases", 1)
+				for _, alt := range strings.Split(w, altSep) {
+					if alt == got {
+						w = alt
+						break
+					}
+				}
+			}
 			if got != w {
 				c.Count("mismatches", 1)
-				c.Violation("C13 wrong "+it.opGroup()+" "+keyClass(it),
+				key := int32Key(it, got, w)
+				if key == "" && it.op == "interp" && strings.Contains(it.recv.s, "%F") && strings.Contains(got, "%F") {
+					key = "C13 wrong str % conversion %F is emitted verbatim"
+				}
+				if key == "" {
+					key = "C13 wrong " + it.opGroup() + " " + keyClass(it)
+				}
+				c.Violation(key,
 					fmt.Sprintf("%s = %s, specification/reference: %s", r.src, show(r.direct), showCanon(w)),
 					map[string]any{"expr": r.src, "got": got, "got_err": r.direct.err, "want": w, "op": g.op, "receiver": recvCanon})
 				continue
@@ -303,7 +345,8 @@ func (m *monitor) judge(sp *caseSpec, groups []group) bool {
 			if sp.exhaustive {
 				c.Count("exhaustive_index_slice_cases", 1)
 			}
-			if c.WantSample() && w != "E" && nonEmpty && ai%7 == 3 {
+			if sp.family == m.sampleFamily && m.nsampled < 2 && w != "E" && ai%5 == 3 && (first.seqLen() >= 3 || first.k == 'N' && len(a) > 0 && a[0].seqLen() >= 3) {
+				m.nsampled++
 				c.Sample(map[string]any{"expr": r.src, "got": got, "reference": w, "family": sp.family})
 			}
 		}
@@ -313,26 +356,42 @@ func (m *monitor) judge(sp *caseSpec, groups []group) bool {
 
 // keyClass is the argument-shape part of a violation key.
 func keyClass(it *item) string {
-	var hasBig func(v val) bool
-	hasBig = func(v val) bool {
-		if v.k == 'G' {
-			return true
-		}
-		for _, e := range v.elems {
-			if hasBig(e) {
-				return true
-			}
-		}
-		return false
-	}
-	if it.op != "interp" && it.op != "m:format" {
-		for _, a := range it.args {
-			if hasBig(a) {
-				return "(operand beyond int64)"
-			}
-		}
-	}
 	return it.argClass()
+}
+
+func outsideInt32(v val) bool {
+	return v.k == 'G' || v.k == 'I' && (v.i >= 1<<31 || v.i < -(1<<31))
+}
+
+// int32Key recognises the one family with its own stable keys: an integer operand outside the int32 range is
+// rejected (starlark.AsInt32) where the specification clamps it.  The key names the call site, not the operands.
+func int32Key(it *item, got, want string) string {
+	if got != "E" || want == "E" {
+		return ""
+	}
+	switch {
+	case it.op == "slice":
+		if outsideInt32(it.args[2]) {
+			return "C13 wrong slice stride outside int32 is rejected"
+		}
+		if outsideInt32(it.args[0]) || outsideInt32(it.args[1]) {
+			return "C13 wrong start/end index outside int32 is rejected instead of clamped"
+		}
+	case it.op == "mul":
+		if outsideInt32(it.args[0]) || outsideInt32(it.recv) {
+			return "C13 wrong negative repeat count outside int32 is rejected"
+		}
+	case strings.HasPrefix(it.op, "m:") || it.op == "l:index":
+		switch it.op[2:] {
+		case "find", "rfind", "index", "rindex", "count", "startswith", "endswith":
+			for _, a := range it.args[1:] {
+				if outsideInt32(a) {
+					return "C13 wrong start/end index outside int32 is rejected instead of clamped"
+				}
+			}
+		}
+	}
+	return ""
 }
 
 func show(o outcome) string {
